@@ -23,6 +23,7 @@ type World struct {
 	clock   uint64
 	Chain   uint64
 	Network uint64
+	Peer    uint64       // the other chain of a two-chain setup (target of dex operations); 0 = none
 	staked  map[int]bool // spare keys already staked by a generated tx (model, best effort)
 }
 
@@ -112,7 +113,18 @@ func (w *World) sign(pk crypto.PrivateKeyI, msg lib.MessageI, fee, height uint64
 
 // TxKinds lists the generated kinds (for class accounting).
 var TxKinds = []string{"send", "send-broke", "double-spend", "stake-new", "edit-stake-up", "pause", "unpause", "unstake", "bad-sig", "wrong-chain",
-	"noncanonical", "dup-same", "low-fee", "change-param", "dao-transfer", "subsidy", "create-order", "big-memo", "hostile-amount", "future-height", "send-self"}
+	"noncanonical", "dup-same", "low-fee", "change-param", "dao-transfer", "subsidy", "create-order", "big-memo", "hostile-amount", "future-height", "send-self",
+	"dex-order", "dex-deposit", "dex-withdraw"}
+
+// ForChain returns a copy of the world that signs for another chain (same keys and accounts).
+func (w *World) ForChain(chain, peer uint64) *World {
+	c := *w
+	c.Chain, c.Peer = chain, peer
+	c.Stakes = append([]uint64(nil), w.Stakes...)
+	c.staked = map[int]bool{}
+	c.clock += 500 // never collide with the other chain's transaction times
+	return &c
+}
 
 // GenTx draws one transaction (or a pair for conflicts) valid for inclusion at `height`.
 func (w *World) GenTx(t *rapid.T, height uint64, kinds []string) []Tx {
@@ -224,6 +236,18 @@ func (w *World) GenTx(t *rapid.T, height uint64, kinds []string) []Tx {
 		from := rich("from")
 		amt := rapid.SampledFrom([]uint64{0, 1 << 63, ^uint64(0), RichAmount, RichAmount + 1}).Draw(t, "amt")
 		return one(w.sign(from.Priv(), &fsm.MessageSend{FromAddress: from.Addr(), ToAddress: Addr(1, 29), Amount: amt}, fee, height, w.Chain, ""), "maybe", fmt.Sprintf("hostile-amount %s %d", from, amt))
+	case "dex-order":
+		from := rich("from")
+		m := &fsm.MessageDexLimitOrder{ChainId: w.Peer, AmountForSale: uint64(rapid.IntRange(1000, 900000).Draw(t, "sell")), RequestedAmount: uint64(rapid.IntRange(1, 900000).Draw(t, "want")), Address: from.Addr()}
+		return one(w.sign(from.Priv(), m, 0, height, w.Chain, ""), "maybe", fmt.Sprintf("dex-order %s %d/%d", from, m.AmountForSale, m.RequestedAmount))
+	case "dex-deposit":
+		from := rich("from")
+		m := &fsm.MessageDexLiquidityDeposit{ChainId: w.Peer, Amount: uint64(rapid.IntRange(1000, 900000).Draw(t, "amt")), Address: from.Addr()}
+		return one(w.sign(from.Priv(), m, 0, height, w.Chain, ""), "maybe", fmt.Sprintf("dex-deposit %s %d", from, m.Amount))
+	case "dex-withdraw":
+		from := rich("from")
+		m := &fsm.MessageDexLiquidityWithdraw{ChainId: w.Peer, Percent: uint64(rapid.IntRange(1, 100).Draw(t, "pct")), Address: from.Addr()}
+		return one(w.sign(from.Priv(), m, 0, height, w.Chain, ""), "maybe", fmt.Sprintf("dex-withdraw %s %d%%", from, m.Percent))
 	case "future-height":
 		from := rich("from")
 		dh := rapid.SampledFrom([]uint64{1, 2, 5000, 1 << 40}).Draw(t, "dh")
